@@ -307,6 +307,12 @@ func (x *Exec) callContract(st *State, fn *ssa.Function, con *Contract, args []V
 func (x *Exec) invoke(st *State, c *ssa.CallCommon, recv *Term, args []Val, pos token.Pos) []Outcome {
 	x.oblige(st, "safety", "nil-interface-call", Not(Eq(App("Int", "itag", recv), IntLit(0))), pos)
 	named, _ := c.Value.Type().(*types.Named)
+	// a method promoted from an embedded interface is specified where it is declared (MultiValued.Set is flag.Value.Set)
+	if sig, ok := c.Method.Type().(*types.Signature); ok && sig.Recv() != nil {
+		if dn, ok := sig.Recv().Type().(*types.Named); ok {
+			named = dn
+		}
+	}
 	iname := shortTypeName(c.Value.Type())
 	if named != nil {
 		iname = named.Obj().Name()
@@ -368,9 +374,13 @@ func (x *Exec) callContractSig(st *State, con *Contract, ms *methodStub, recv *T
 			pc.vars[n] = argT[i]
 		}
 	}
+	specPkg := con.PkgPath
+	if con.SpecPkg != "" {
+		specPkg = con.SpecPkg
+	}
 	ctx := x.newSpecCtx(st, nil, nil)
 	ctx.callSite = true
-	ctx.pkgPath = con.PkgPath
+	ctx.pkgPath = specPkg
 	bindAll(ctx)
 	ctx.evalLets(con)
 	preMod := map[string]bool{}
@@ -426,7 +436,7 @@ func (x *Exec) callContractSig(st *State, con *Contract, ms *methodStub, recv *T
 		pc := x.newSpecCtx(s, nil, nil)
 		pc.callSite = true
 		pc.preMod = preMod
-		pc.pkgPath = con.PkgPath
+		pc.pkgPath = specPkg
 		bindAll(pc)
 		pc.oldHeap, pc.oldTrace, pc.oldAlloc, pc.hasOld = oldHeap, oldTrace, oldAlloc, true
 		for i, r := range results {
